@@ -97,6 +97,34 @@ def check_crash(inp):
   """Torn write of a checkpoint at every prefix length: the final name must
   never be visible with partial content."""
   cut = inp['cut']
+  if cut < 0:
+    # a kill right after the rename: what is ON DISK under the temporary name at that moment is what the final name shows
+    with tempfile.TemporaryDirectory() as root:
+      state = {'w': np.arange(5000) + 3}
+      seen = {}
+      real_rename = tf.io.gfile.rename
+
+      def checked_rename(src, dst, overwrite=False):
+        with open(src, 'rb') as f:
+          data = f.read()
+        try:
+          ok = bool(np.array_equal(pickle.loads(data)['w'], state['w']))
+        except Exception as e:  # pylint: disable=broad-except
+          ok = False
+        seen.setdefault('complete', []).append((len(data), ok))
+        return real_rename(src, dst, overwrite=overwrite)
+      tf.io.gfile.rename = checked_rename
+      try:
+        checkpoint.save_checkpoint(root, state, 3, 1)
+      finally:
+        tf.io.gfile.rename = real_rename
+      bad = [x for x in seen.get('complete', []) if not x[1]]
+      if not seen.get('complete'):
+        return 'save_checkpoint did not publish the checkpoint with a rename'
+      if bad:
+        return (f'the checkpoint is renamed to its final name while only {bad[0][0]} bytes of it are on disk (file not yet '
+                'flushed / closed): a kill at that point leaves a truncated checkpoint that every restart loads')
+    return None
   with tempfile.TemporaryDirectory() as root:
     checkpoint.save_checkpoint(root, {'w': np.arange(50)}, 1, 1)
     state = {'w': np.arange(200) + 7}
@@ -124,7 +152,7 @@ def check_crash(inp):
 
 
 def sweep_crash(tier, seed):
-  for cut in (0, 1, 10, 100, 10 ** 6):
+  for cut in (-1, 0, 1, 10, 100, 10 ** 6):
     yield dict(cut=cut)
 
 
